@@ -194,12 +194,20 @@ def build_unit(unit_path, repo_root, twin=False):
     unitfile = os.path.relpath(unit_path, VERIF)
     out = []
     meta = {"unit": os.path.basename(unit_path)[:-3], "safety": None, "default": None, "props": []}
-    label = None
-    i = 0
     header = ["#![allow(unused_imports, dead_code, unused_variables, unused_mut, unused_parens, unreachable_code, unreachable_patterns, non_snake_case, unused_assignments, private_interfaces, unused_braces)]",
               "use vstd::prelude::*;", "use std::collections::{HashMap, HashSet};", "use std::hash::Hash;", "use std::fmt::Debug;", "verus! {"]
     for h in header:
         out.append(Line(h, ("gen", "header")))
+    _process_lines(raw, unitfile, repo_root, out, log, meta, twin, set())
+    out.append(Line("} // verus!", ("gen", "footer")))
+    out.append(Line("fn main() {}", ("gen", "footer")))
+    text = "\n".join(l.text for l in out) + "\n"
+    return text, out, log, meta
+
+
+def _process_lines(raw, unitfile, repo_root, out, log, meta, twin, seen):
+    label = meta.get("default")
+    i = 0
     while i < len(raw):
         s = raw[i]
         st = s.strip()
@@ -215,15 +223,14 @@ def build_unit(unit_path, repo_root, twin=False):
                 meta["default"] = words[0]
                 label = words[0]
             elif name == "include":
+                if words[0] in seen:
+                    i += 1
+                    continue
+                seen.add(words[0])
                 p = os.path.join(VERIF, words[0])
                 with open(p, encoding="utf-8") as f:
                     inc = f.read().split("\n")
-                ilabel = None
-                for k, t in enumerate(inc):
-                    lm = LABEL_RE.match(t)
-                    if lm:
-                        ilabel = lm.group(1) or None
-                    out.append(Line(t, ("spec", words[0], k + 1), ilabel))
+                _process_lines(inc, words[0], repo_root, out, log, meta, twin, seen)
             elif name == "opaque":
                 derives = "Clone, Debug, PartialEq"
                 for w in words:
@@ -247,10 +254,6 @@ def build_unit(unit_path, repo_root, twin=False):
             label = lm.group(1) or meta["default"]
         out.append(Line(s, ("spec", unitfile, i + 1), label))
         i += 1
-    out.append(Line("} // verus!", ("gen", "footer")))
-    out.append(Line("fn main() {}", ("gen", "footer")))
-    text = "\n".join(l.text for l in out) + "\n"
-    return text, out, log, meta
 
 
 def _occ(words):
@@ -322,9 +325,9 @@ def _do_extract(raw, i, unitfile, repo_root, out, log, meta, twin=False):
             gen_impls.append(f"impl{gparams} Clone for {name}{gargs} {{ #[verifier::external_body] fn clone(&self) -> (r: Self) ensures r == *self {{ unimplemented!() }} }}")
             log.count("assumed: #[derive(Clone)] returns an equal value")
         if "+eq" in flags:
-            text = undervive(text, "PartialEq")
-            gen_impls.append(f"impl{gparams} PartialEq for {name}{gargs} {{ #[verifier::external_body] fn eq(&self, other: &Self) -> (r: bool) ensures r == (*self == *other) {{ unimplemented!() }} }}")
-            log.count("assumed: #[derive(PartialEq)] is structural equality")
+            # the derived `eq` is kept and VERIFIED by Verus against "== is structural equality"
+            gen_impls.append(f"impl{gparams} vstd::std_specs::cmp::PartialEqSpecImpl for {name}{gargs} {{ open spec fn obeys_eq_spec() -> bool {{ true }} open spec fn eq_spec(&self, other: &Self) -> bool {{ *self == *other }} }}")
+            log.count("verified: #[derive(PartialEq)] is structural equality (PartialEqSpecImpl)")
         text = text.replace("#[derive()]", "           ")
     item = Item(ex, text, meta["unit"])
     log.extracted.append({"item": ex.describe(), "sha256": ex.sha256,
